@@ -80,7 +80,15 @@ def build_nc(notes, bpm=None, sub=False):
     if notes is None:
         return None
     try:
-        nc = (UserChord if sub else NoteContainer)([Note(n[0], n[1], channel=n[2], velocity=n[3]) for n in notes])
+        objs = [Note(n[0], n[1], channel=n[2], velocity=n[3]) for n in notes]
+        if len({int(o) for o in objs}) < len(objs):
+            # two notes of one pitch under different names (C# and Db): the constructor would keep one of them only; such a chord
+            # comes about by item assignment, so it is built that way (placeholders first)
+            nc = (UserChord if sub else NoteContainer)([Note(i) for i in range(len(objs))])
+            for i, o in enumerate(objs):
+                nc[i] = o
+        else:
+            nc = (UserChord if sub else NoteContainer)(objs)
     except Exception as e:  # noqa
         raise BuildError("cannot build container %r: %r" % (notes, e))
     if len(nc) != len(notes):
